@@ -160,6 +160,7 @@ type World struct {
 	curCause int
 
 	Viol  []Violation
+	nOwn, nOther int
 	Stats map[string]int
 	Inconclusive []string
 
@@ -184,10 +185,23 @@ func (w *World) logf(f string, a ...any) {
 }
 
 func (w *World) violate(prop string, also []string, f string, a ...any) {
-	if len(w.Viol) >= 8 {
-		return
+	v := Violation{Prop: prop, Also: also, Step: w.step}
+	own := v.Concerns(w.Cfg.Prop)
+	if own {
+		if w.nOwn >= 4 {
+			return
+		}
+		w.nOwn++
+	} else {
+		// violations of other properties are recorded (each check reports only
+		// its own) but do not end the world: their consequences may be what
+		// this world's property is about
+		if w.nOther >= 3 {
+			return
+		}
+		w.nOther++
 	}
-	v := Violation{Prop: prop, Also: also, Msg: fmt.Sprintf(f, a...), Step: w.step}
+	v.Msg = fmt.Sprintf(f, a...)
 	v.Known = w.classifyKnown(&v)
 	w.Viol = append(w.Viol, v)
 	w.logf("VIOLATION %s: %s", prop, v.Msg)
@@ -199,7 +213,9 @@ func (w *World) inconclusive(f string, a ...any) {
 	}
 }
 
-func (w *World) failed() bool { return len(w.Viol) > 0 }
+// failed: a violation that concerns the property this world was generated for
+// ends the world.
+func (w *World) failed() bool { return w.nOwn > 0 }
 
 // NewWorld builds the initial cluster.
 func NewWorld(cfg WorldCfg, keepLog bool) *World {
